@@ -27,7 +27,11 @@ INFO = {
         "data[offset..used) (some/atmost) resp. data[0..used) (n/drain, which rewind) and the guard octets around it "
         "are untouched. c17_buf_*/c17_chunks_*/c17_trivial_*/c17_plumb_*: source_from_buffer, source_from_chunks, "
         "sink_to_buffer, source_zero/source_empty/sink_null through the public API and sts_* between real buffer "
-        "endpoints, compared with the byte-buffer FIFO model of C18.",
+        "endpoints, compared with the byte-buffer FIFO model of C18. c17_big_get/put: pointer-level "
+        "bookkeeping of the two exact-N loops with CHUNK drivers for every N in 1..2^34 (no octet is moved, the "
+        "driver stub records request size and position and answers any ssize_t count <= asked, 0, -EINTR/-EAGAIN or a "
+        "hard error): each call asks for exactly the missing octets right behind those moved, result is N or the "
+        "hard error; scripts that finish within CALLS (3 / 5) driver calls.",
     "bounds": {
         "quick": {"get/put/at-most": "N 0..3 and every N > SSIZE_MAX, STALL 2 per run, scripts of 6 calls, octet and "
                                      "chunk driver, any stream/destination contents, any hard error code",
@@ -46,7 +50,8 @@ INFO = {
     },
     "outside_bounds": [
         "drivers that stall more than STALL times per run (unbounded stalling legitimately never terminates)",
-        "counts/streams above the stated sizes; N in NMAX+1..SSIZE_MAX (the caller would have to own that many octets)",
+        "counts/streams above the stated sizes; data movement for N in NMAX+1..SSIZE_MAX (the caller would have to own "
+        "that many octets; c17_big_* decide only the request bookkeeping of the chunk-driver loops, N <= 2^34)",
         "endpoints that implement the getbuffer extension (no shipped endpoint does; sts_atmost_via_sink / "
         "sts_atmost_via_source are only reached up to their NULL test)",
         "auxiliary buffer with an empty region (used == offset), sts_atmost_aux/sts_atmost with n == 0, at-most "
@@ -180,5 +185,17 @@ def _bufeps(tier):
     return out
 
 
+def _big(tier):
+    # pointer-level bookkeeping of the exact-N loops for N up to 2^34 (seed C17-G: ssize_t answers narrowed to int)
+    calls = 3 if tier == "quick" else 5
+    out = []
+    for op in ("GET", "PUT"):
+        out.append(mk("c17_big_%s_calls%d" % (op.lower(), calls), "C17/c17_big.c", CORE,
+                      {"OP_" + op: None, "CALLS": calls},
+                      unwind={"harness": calls + 2, "source_get_chunk": calls + 3, "sink_put_chunk": calls + 3},
+                      default_unwind=2, fp_removal=True))
+    return out
+
+
 def instances(tier):
-    return _getput(tier) + _sts(tier) + _bufeps(tier)
+    return _getput(tier) + _sts(tier) + _bufeps(tier) + _big(tier)
